@@ -736,3 +736,5 @@ PROPS["C12"]["rule"] += " Log lines are matched by what they name (the field - a
 PROPS["C04"]["rule"] += " The misconfiguration log line is recognised by its subject (a line that speaks of forwarding and reports no read failure), not by its wording."
 
 PROPS["C10"]["rule"] += " The error that ends the retries is recognised by what it carries (a recoverable cause, flattened into its text or wrapped), not by its wording."
+
+PROPS["C20"]["rule"] += " The task list is compared by task type and by the interface name or address each description mentions, not by the wording of the descriptions."
